@@ -8,7 +8,7 @@ Init == body = <<>> /\ done = FALSE
 Extend == ~done /\ Len(body) < MaxLen /\ \E s \in Stmts : body' = Append(body, s) /\ done' = FALSE
 Finish == ~done /\ done' = TRUE /\ UNCHANGED body
 Next == Extend \/ Finish
-Emit == ~done \/ PrintT(<<"REPLAY", ToJson([k |-> "own", body |-> body, illegal |-> Illegal(body)])>>)
-\* sanity (non-vacuity): both verdicts occur, and the empty body is illegal only because of nd
+Emit == ~done \/ PrintT(<<"REPLAY", ToJson([k |-> "own", vars |-> Vars, body |-> body, illegal |-> Illegal(body)])>>)
+\* sanity (non-vacuity): both verdicts occur, and the empty body is illegal because a non-droppable variable is never consumed
 Sanity == (done /\ body = <<>>) => Illegal(body)
 =============================================================================
